@@ -120,10 +120,7 @@ class HilbertClimateNetwork(ClimateNetwork):
         """
         Clean up cache.
         """
-        try:
-            del self._coherence_phase
-        except AttributeError:
-            pass
+        self._coherence_phase = None
 
     #
     #  Defines methods to calculate Hilbert correlation measures
@@ -157,7 +154,7 @@ class HilbertClimateNetwork(ClimateNetwork):
         :arg float threshold: the threshold used to generate the network.
         """
         ClimateNetwork.set_threshold(self, threshold)
-        if self.directed and self._coherence_phase is not None:
+        if self.directed:
             self.adjacency = self.adjacency * (self.phase_shift() > 0)
 
     def set_directed(self, directed):
@@ -234,4 +231,8 @@ class HilbertClimateNetwork(ClimateNetwork):
         :rtype: 2D Numpy array [index, index]
         :return: the average phase shift matrix.
         """
+        if self._coherence_phase is None:
+            #  (dropped by clear_cache)
+            self._coherence_phase = self._calculate_hilbert_correlation(
+                self.data.anomaly())[1]
         return self._coherence_phase
